@@ -19,7 +19,7 @@ ASSUMPTIONS = ["statistical verdicts are 'not rejected at alpha=1e-9 per test' (
                "a product-only sampler reaches 36 of the 720 classes"]
 REQUIRED_SUBS = ["valid.random_clifford_map", "valid.random_pauli_map", "valid.random_clifford_state", "valid.random_pauli_state",
                  "valid.rcc.*", "uniform.n1", "uniform.n2.classes", "uniform.n2.signs", "uniform.n2.coverage", "entangle.n3",
-                 "paulimap.n2", "signs.fair", "resample"]
+                 "paulimap.n2", "signs.fair", "resample", "uniform.rows.n3", "uniform.rows.n4"]
 
 
 def shards(tier):
@@ -173,6 +173,28 @@ def run_uniform(shard, rec, B):
     tl = _normal_tail(n3, ent, 2.0 / 3.0)
     rec.batch("uniform.samples", n3, 0, None)
     rec.check("entangle.n3", tl > stats.ALPHA, ["entangle", n3], True, expected="fraction 2/3", observed={"entangled": int(ent), "n": n3, "tail": tl})
+    # ---- N=3 and N=4: every row of a uniform Clifford map is marginally uniform over the 4^N-1 non-identity strings, and
+    #      (X_k image, Z_k image) is uniform over anticommuting pairs: first-string marginal x parity of the second
+    for N, ns in ((3, max(4000, n3)), (4, max(6000, n3))):
+        cells = 4 ** N - 1
+        rowc = np.zeros((2 * N, 4 ** N), dtype=np.int64)
+        w = 4 ** np.arange(N)[::-1]
+        badr = 0
+        for t in range(ns):
+            M = st.random_clifford_map(N)
+            g, p = B.gsps(M)
+            if t % 50 == 0 and not O.map_valid(g, p):
+                badr += 1
+            idx = (O.letters(g) * w).sum(-1)
+            rowc[np.arange(2 * N), idx] += 1
+        rec.batch("uniform.samples", ns, 0, None)
+        worst = 1.0
+        for k in range(2 * N):
+            stat, dof, tail = stats.chi2_tail(list(rowc[k, 1:]))
+            worst = min(worst, tail)
+            rec.check("uniform.rows.n%d" % N, rowc[k, 0] == 0 and tail > stats.ALPHA, ["row marginal", N, k, ns], True,
+                      expected="uniform over %d non-identity strings" % cells, observed={"identity": int(rowc[k, 0]), "chi2": stat, "tail": tail})
+        rec.check("uniform.rows.valid", badr == 0, ["rows valid", N], True, observed=badr)
     # ---- gates without a map are resampled at every call
     for n in (1, 2):
         gate = C.CliffordGate(*range(n)) if B.name == "np" else C.CliffordGate(*range(n))
